@@ -1,5 +1,5 @@
 ----------------------------- MODULE Trace_Proxy -----------------------------
-EXTENDS ProxyChoice, Json, IOUtils, TLC
+EXTENDS ProxyChoice, Json, IOUtils, TLC, TraceUtil
 Rec == ndJsonDeserialize(IOEnv.TRACE)
 VARIABLE l
 
@@ -13,8 +13,8 @@ TraceNext ==
   /\ l <= Len(Rec)
   /\ l' = l + 1
   /\ \A i \in Wrong(Rec[l]) :
-       PrintT(<<"VIOL", l, Rec[l].id, "C11", IF Rec[l].kind = "penv" THEN "G11_envChoice" ELSE "G11_proxyChoice",
-                i, ProxyFor(Cfg(Rec[l]), Rec[l].obs[i].sch, Rec[l].obs[i].labels)>>)
+       Viol(l, Rec[l].id, "C11", IF Rec[l].kind = "penv" THEN "G11_envChoice" ELSE "G11_proxyChoice",
+            "observation " \o ToString(i) \o " expected " \o ProxyFor(Cfg(Rec[l]), Rec[l].obs[i].sch, Rec[l].obs[i].labels))
 TraceSpec == TraceInit /\ [][TraceNext]_l
 TraceAccepted ==
   LET d == TLCGet("stats").diameter IN
